@@ -177,7 +177,12 @@ func waitGone(gid string, d time.Duration) bool {
 
 var fanMu sync.Mutex
 
-const fanStepTimeout = 3 * time.Second
+// fanStepTimeout: a goroutine released by the scheduler parks again within microseconds; the first time one does
+// not, we wait long enough to rule out machine load, afterwards (a hang has already been reported by this process)
+// a short wait suffices.
+var fanStepTimeout = 4 * time.Second
+
+func fanSawHang() { fanStepTimeout = 150 * time.Millisecond }
 
 type fanRet struct {
 	p   *types.Project
@@ -199,9 +204,16 @@ func labelActor(l string) string {
 	return "W" + v
 }
 
+// fanStuck counts runs of this process that ended stuck (they leak goroutines blocked inside the real code); after
+// a few of them the failure is established and further runs would only cost time
+var fanStuck int
+
 func runFanout(a fanArgs) fanReal {
 	fanMu.Lock()
 	defer fanMu.Unlock()
+	if fanStuck >= 12 {
+		return fanReal{Status: "skipped-after-repeated-hangs"}
+	}
 	n := len(a.Res)
 	out := fanReal{Status: "ok", Calls: map[string]int{}, BadInput: []string{}, Trace: []string{}, Pcs: []string{}}
 	sch := &fanSched{parked: map[string]*parkedG{}, arrive: make(chan struct{}, 1), abort: make(chan struct{})}
@@ -360,8 +372,21 @@ func runFanout(a fanArgs) fanReal {
 			}
 			break
 		}
+		// a sender that blocked (off-model: the buffer always has room) may have been unblocked by a receive
+		inSend := 0
+		for v := 0; v < n; v++ {
+			if wpc[v] == "inSend" {
+				if q := sch.get("W" + strconv.Itoa(v)); q != nil && q.step == "W.exit" {
+					wpc[v] = "exit"
+					chCount++
+					logEv("wSend:" + strconv.Itoa(v))
+				} else {
+					inSend++
+				}
+			}
+		}
 		// a collector that was released into its select fires as soon as it can
-		if cpc == "inSelect" && (chCount > 0 || cancelled) {
+		if cpc == "inSelect" && (chCount+inSend > 0 || cancelled) {
 			p := sch.waitPark("C", fanStepTimeout)
 			if p == nil {
 				out.Status = "hang:select"
@@ -370,7 +395,16 @@ func runFanout(a fanArgs) fanReal {
 			switch p.step {
 			case "C.recv":
 				cpc = "recv"
-				chCount--
+				if chCount > 0 {
+					chCount--
+				} else { // rendezvous with a blocked sender: it parks at W.exit right away
+					w := "W" + strings.TrimPrefix(p.key, "s")
+					if q := sch.waitPark(w, fanStepTimeout); q != nil && q.step == "W.exit" {
+						if v, err := strconv.Atoi(w[1:]); err == nil && v < n && wpc[v] == "inSend" {
+							wpc[v] = "exit"
+						}
+					}
+				}
 				logEv("cRecv")
 			case "C.ctxDone":
 				cpc = "ctxDone"
@@ -397,14 +431,17 @@ func runFanout(a fanArgs) fanReal {
 			cand = append(cand, "M")
 		}
 		if cpc != "gone" && cpc != "inSelect" {
-			if cpc != "select" || chCount > 0 || cancelled || a.Probe {
+			if cpc != "select" || chCount+inSend > 0 || cancelled || a.Probe {
 				cand = append(cand, "C")
 			}
 		}
 		for v := 0; v < n; v++ {
-			if wpc[v] != "gone" {
+			if wpc[v] != "gone" && wpc[v] != "inSend" {
 				cand = append(cand, "W"+strconv.Itoa(v))
 			}
+		}
+		if len(cand) == 0 && inSend > 0 && cpc == "inSelect" {
+			continue // the select is about to take a blocked sender's value
 		}
 		if len(cand) == 0 {
 			// nothing parked, nothing due: the real code is stuck (or the collector waits forever in its select)
@@ -448,7 +485,7 @@ func runFanout(a fanArgs) fanReal {
 			p := sch.releaseG("C")
 			switch cpc {
 			case "select":
-				if chCount > 0 || cancelled {
+				if chCount+inSend > 0 || cancelled {
 					cpc = "inSelect" // handled at the top of the loop
 				} else {
 					// the model says the select blocks: watch that it does
@@ -511,7 +548,11 @@ func runFanout(a fanArgs) fanReal {
 					}
 				} else {
 					if q := sch.waitPark(who, fanStepTimeout); q == nil || q.step != "W.exit" {
-						out.Status = "hang:send" // the send blocks although the buffer has room for every result
+						// the send blocks although the buffer has room for every result: off-model; keep scheduling the
+						// others – it is a property failure only if the call can no longer finish
+						wpc[v] = "inSend"
+						out.Diverged = true
+						fanSawHang()
 					} else {
 						wpc[v] = "exit"
 						chCount++
@@ -539,6 +580,12 @@ func runFanout(a fanArgs) fanReal {
 
 // finishFan records what the call returned.
 func finishFan(out fanReal, a fanArgs, got *fanRet) fanReal {
+	if strings.HasPrefix(out.Status, "hang") {
+		fanSawHang()
+	}
+	if strings.HasPrefix(out.Status, "hang") || out.Status == "deadlock" {
+		fanStuck++
+	}
 	if got == nil {
 		return out
 	}
@@ -605,6 +652,9 @@ func judgeFanout(args, real, drv json.RawMessage) *core.Verdict {
 		return core.Disagree("malformed fan-out exchange")
 	}
 	n := len(a.Res)
+	if r.Status == "skipped-after-repeated-hangs" {
+		return core.Skip("this lane already reported repeated hangs of the fan-out")
+	}
 	// ---------------- direct oracle: the property on the real outcome
 	if r.Status == "deadlock" || strings.HasPrefix(r.Status, "hang") {
 		return core.Fail("fanout:deadlock:"+r.Status, fmt.Sprintf("WithServicesTransform does not finish (%s) after %v", r.Status, r.Trace))
